@@ -677,4 +677,9 @@ def roundtrip_oracle(text, workdir):
     exc, asm3, err3 = run_main(["assemble", "--stdout", o])
     if exc or asm3 != asm1:
         return "the --obfuscate form does not encode the same program (%s): %s" % (exc or "words differ", err3.strip()[:200]), True
+    # ... and it is itself a program the tool accepts outside assemble mode (the words were compared above)
+    # (seed C10f: OPCODE words of LOAD/STORE with offsets >= 16 were refused as "not a HERA instruction")
+    exc, listing3, err4 = run_main(["preprocess", o])
+    if exc:
+        return "the --obfuscate form is not accepted when fed back to `hera preprocess` (%s): %s" % (exc, err4.strip()[:300]), True
     return None, True
